@@ -1108,6 +1108,14 @@ func LenSinks(p *Prog, fn *ssa.Function) []*lenSink {
 				ln := lp.lenTerm(x.X)
 				ix := lp.term(x.Index)
 				s = &lenSink{Fn: fn, Instr: ins, Kind: "index", Goals: []lin{ix.scale(-1), ix.add(ln, -1).add(linConst(1), 1)}, Desc: fmt.Sprintf("%s[%s] with len %s", x.X.Name(), ix, ln)}
+			case *ssa.SliceToArrayPointer:
+				// [N]T(s) and (*[N]T)(s) panic when len(s) < N
+				if pt, ok := x.Type().Underlying().(*types.Pointer); ok {
+					if at, ok := pt.Elem().Underlying().(*types.Array); ok {
+						ln := lp.lenTerm(x.X)
+						s = &lenSink{Fn: fn, Instr: ins, Kind: "slice-to-array", Goals: []lin{linConst(at.Len()).add(ln, -1)}, Desc: fmt.Sprintf("[%d]…(%s) with len %s", at.Len(), x.X.Name(), ln)}
+					}
+				}
 			}
 			if s == nil {
 				continue
@@ -1568,6 +1576,12 @@ func rebuildGoals(lp *LenProver, ins ssa.Instruction) []lin {
 	case *ssa.Index:
 		ln, ix := lp.lenTerm(x.X), lp.term(x.Index)
 		return []lin{ix.scale(-1), ix.add(ln, -1).add(linConst(1), 1)}
+	case *ssa.SliceToArrayPointer:
+		if pt, ok := x.Type().Underlying().(*types.Pointer); ok {
+			if at, ok := pt.Elem().Underlying().(*types.Array); ok {
+				return []lin{linConst(at.Len()).add(lp.lenTerm(x.X), -1)}
+			}
+		}
 	}
 	return nil
 }
